@@ -16,10 +16,13 @@ fn texts(rng: &mut Rng) -> String {
 
 pub fn scenario(sub: u64) -> Option<(String, usize, usize)> {
     let mut rng = Rng::new(sub);
-    let nch = rng.range(1, 2) as usize;
-    let n = *rng.pick(&[1usize, 6, 25, 60]);
+    // a body beyond the collector's pre-allocation bound (1 MiB), in frames up to 1 MiB: the
+    // negotiated frame_max is 4 MiB there (scenario 3 is always part of a run)
+    let big = sub == 3 || rng.chance(1, 60);
+    let nch = if big { 1 } else { rng.range(1, 2) as usize };
+    let n = if big { 2 } else { *rng.pick(&[1usize, 6, 25, 60]) };
     let (stream, peer) = mock_pair();
-    let broker = Broker::start(peer.clone(), BrokerCfg::default());
+    let broker = Broker::start(peer.clone(), BrokerCfg { tune: if big { (2047, 4 << 20, 0) } else { BrokerCfg::default().tune }, ..BrokerCfg::default() });
     let mut conn = with_deadline(
         move || Connection::insecure_open_stream(stream, ConnectionOptions::<Auth>::default(), ConnectionTuning::default()),
         Duration::from_secs(5),
@@ -48,7 +51,7 @@ pub fn scenario(sub: u64) -> Option<(String, usize, usize)> {
         let k = rng.below(rxs.len() as u64) as usize;
         let (id, tag, _) = &rxs[k];
         expect[k] += 1;
-        let len = *rng.pick(&[0usize, 1, 10, 300, 4088, 5000, 20000]);
+        let len = if big && i == 0 { (1usize << 20) + *rng.pick(&[10usize, 1, 4096]) } else { *rng.pick(&[0usize, 1, 10, 300, 4088, 5000, 20000]) };
         let b0 = rng.below(250) as u8;
         let body: Vec<u8> = (0..len).map(|j| if j == 0 { b0.wrapping_add(1) } else if j + 1 == len { b0.wrapping_add(2) } else { b0 }).collect();
         let mut fs = vec![
@@ -60,10 +63,15 @@ pub fn scenario(sub: u64) -> Option<(String, usize, usize)> {
             if rng.chance(1, 8) {
                 fs.push(FR::Body(*id, vec![]));
             }
-            let m = match rng.below(4) {
-                0 => 1,
-                1 => len - pos,
-                _ => rng.range(1, (len - pos) as u64) as usize,
+            let m = if big && i == 0 {
+                // a small first frame, then one of exactly the pre-allocation bound
+                if pos == 0 { len - (1 << 20) } else { len - pos }
+            } else {
+                match rng.below(4) {
+                    0 => 1,
+                    1 => len - pos,
+                    _ => rng.range(1, (len - pos) as u64) as usize,
+                }
             };
             fs.push(FR::Body(*id, body[pos..pos + m].to_vec()));
             pos += m;
@@ -147,7 +155,7 @@ pub fn run(a: &Args) {
     let subs: Vec<u64> = if let Some(pos) = a.rest.iter().position(|x| x == "--line") {
         vec![a.rest[pos + 1].split_whitespace().last().unwrap().parse().unwrap()]
     } else {
-        (0..a.n).map(|_| rng.next()).collect()
+        std::iter::once(3u64).chain((1..a.n).map(|_| rng.next())).collect()
     };
     for chunk in subs.chunks(6) {
         if crate::l2::timeouts() >= crate::l2::ENOUGH_TIMEOUTS {
